@@ -79,97 +79,109 @@ fn lex_stub<'s: 's>(lexer: &mut logos::Lexer<'s, Tok<'s>>) -> Option<Result<Tok<
     }))
 }
 
-fn stream_check(kmax: usize) {
+/// One call of `Lexer::next` from an **arbitrary reachable state** (inductive step).
+///
+/// State of the streaming lexer = (position in the raw stream, `comment_depth`). The position is
+/// irrelevant to the logic (the stub hands out whatever comes next), so the pre-state is: any
+/// comment depth `d0`, any continuation of the raw stream. Claim checked for the call:
+///   * it returns exactly the first raw token that the reference scan, started at depth `d0`,
+///     finds outside comments (same span, same identity) — or `None` iff the raw stream ends
+///     before any such token;
+///   * afterwards `comment_depth` equals the reference depth (the invariant is re-established).
+/// The initial state (depth 0) satisfies the invariant, so by induction over the calls the
+/// delivered stream equals the tokens outside comments for sources of *any* length; the bound
+/// `kmax` only limits how many raw tokens a *single* call may have to skip (the length, in raw
+/// tokens, of one comment run).
+fn step_check(kmax: usize) {
+    let d0: usize = kani::any();
+    // a depth near usize::MAX would need 2^64 nested `/-`; excluded so `+= 1` cannot overflow
+    kani::assume(d0 <= (u32::MAX as usize));
     unsafe {
         MON.limit = kmax;
+        MON.depth = d0;
     }
     let mut lexer = Lexer::new(SRC);
-    let mut delivered = 0usize;
-    let mut calls = 0usize;
-    while calls <= kmax {
-        calls += 1;
-        let got = lexer.next();
-        let m = unsafe { &*std::ptr::addr_of!(MON) };
-        match got {
-            | None => {
-                // (a) the stream ends only when the raw source is exhausted ...
-                assert!(m.ended, "token stream ended before the end of the source");
-                // ... and (b) nothing outside comments was dropped on the way
-                assert!(delivered == m.deliverable, "a token outside comments was silently dropped");
-                break;
-            }
-            | Some((start, tok, end)) => {
-                delivered += 1;
-                // (b) exactly the tokens outside comments, in order, with their own spans
-                assert!(delivered == m.deliverable, "delivered tokens are exactly the tokens outside comments so far");
-                assert!(start == m.last_pos && end == start + 1, "delivered token carries its own span");
-                let same = match tok {
-                    | Tok::Comma => m.last_class == CODE,
-                    | Tok::Unknown(_) => m.last_class == UNKNOWN,
-                    | Tok::CommentClose => m.last_class == CLOSE,
-                    | _ => false,
-                };
-                assert!(same, "delivered token keeps its identity");
-                std::mem::forget(tok);
-            }
+    lexer.comment_depth = d0;
+    let got = lexer.next();
+    let m = unsafe { &*std::ptr::addr_of!(MON) };
+    match got {
+        | None => {
+            // (a) the stream ends only when the raw source is exhausted ...
+            assert!(m.ended, "token stream ended before the end of the source");
+            // ... and (b) nothing outside comments was dropped on the way
+            assert!(m.deliverable == 0, "a token outside comments was silently dropped");
+        }
+        | Some((start, tok, end)) => {
+            // (b) exactly the next token outside comments, with its own span and identity
+            assert!(m.deliverable == 1, "the delivered token is the first token outside comments (none skipped, none invented)");
+            assert!(start == m.last_pos && end == start + 1 && m.issued == start + 1, "delivered token is the one just read and carries its own span");
+            let same = match tok {
+                | Tok::Comma => m.last_class == CODE,
+                | Tok::Unknown(_) => m.last_class == UNKNOWN,
+                | Tok::CommentClose => m.last_class == CLOSE,
+                | _ => false,
+            };
+            assert!(same, "delivered token keeps its identity");
+            std::mem::forget(tok);
         }
     }
-    let m = unsafe { &*std::ptr::addr_of!(MON) };
-    kani::cover!(delivered >= 2, "two tokens delivered");
-    kani::cover!(m.issued == kmax && delivered == 0 && m.issued > 0, "everything swallowed by comments");
+    // (c) invariant re-established for the next call
+    assert!(lexer.comment_depth == m.depth, "comment depth equals the reference depth after the call");
+    kani::cover!(m.issued == kmax && m.deliverable == 1, "a token delivered after skipping a full-length run");
+    kani::cover!(m.issued >= 3 && d0 == 2 && m.depth == 0 && m.deliverable == 1, "left a doubly nested comment and delivered a token");
     std::mem::forget(lexer);
 }
 
-//@ id: c11_stream_k5
+//@ id: c11_step_k6
 //@ property: C11
 //@ tier: quick
-//@ encodes: <textual::lexer::Lexer as Iterator>::next, Lexer::new, logos::Lexer::{next,bump,span,slice}, logos::SpannedIter::next
-//@ sym: the raw stream: <= 5 raw tokens then end of input, each from {code token, Unknown, TextLine, CommentLine, /-, -/} (6^5 sequences and all shorter ones)
-//@ oracle: reference scan with a depth counter: the delivered stream equals, token for token and span for span, the raw tokens outside comments; None only at end of source
-//@ bounds: <= 5 raw tokens of one byte each; unwind 8
-//@ stubs: <Tok as logos::Logos>::lex -> replay of the symbolic raw sequence (contract: contiguous non-empty tokens, None only at end of input, never Err)
-//@ assumes: logos never yields Err (every character is matched by the Unknown rule; c11_dfa harnesses); LALRPOP's driver pulls its token iterator until None and rejects tokens that have no terminal
+//@ encodes: <textual::lexer::Lexer as Iterator>::next (one call from an arbitrary state), Lexer::new, logos::Lexer::{next,bump,span,slice}, logos::SpannedIter::next
+//@ sym: pre-state: comment depth d0 (any value up to 2^32); the raw stream that follows: up to 6 raw tokens then end of input, each from {code token, Unknown, TextLine, CommentLine, /-, -/}
+//@ oracle: reference scan with a depth counter started at d0: the call returns the first raw token outside comments (same span and identity) or None iff the source ends first; comment_depth afterwards equals the reference depth (inductive invariant, established by Lexer::new)
+//@ bounds: one call may skip at most 6 raw tokens (comment run length); number of calls / source length unbounded by induction; unwind 9
+//@ stubs: <Tok as logos::Logos>::lex -> arbitrary raw token source (contract: contiguous non-empty tokens, None only at end of input and then forever, never Err)
+//@ assumes: logos never yields Err (every character is matched by the Unknown rule; c11_dfa harnesses); LALRPOP's driver pulls its token iterator until None and rejects tokens that have no terminal; comment depth <= 2^32
 //@ replay: lexer
 #[kani::proof]
-#[kani::unwind(8)]
+#[kani::unwind(9)]
 #[kani::stub(<Tok<'_> as logos::Logos<'_>>::lex, lex_stub)]
-fn c11_stream_k5() {
-    stream_check(5);
+fn c11_step_k6() {
+    step_check(6);
 }
 
-//@ id: c11_stream_k7
+//@ id: c11_step_k8
 //@ property: C11
 //@ tier: thorough
-//@ encodes: <textual::lexer::Lexer as Iterator>::next, Lexer::new, logos::Lexer::{next,bump,span,slice}, logos::SpannedIter::next
-//@ sym: k <= 7 raw tokens, each from {code token, Unknown, TextLine, CommentLine, /-, -/}
-//@ oracle: as c11_stream_k5
-//@ bounds: <= 7 raw tokens of one byte each; unwind 10
-//@ stubs: <Tok as logos::Logos>::lex -> replay of the symbolic raw sequence
-//@ assumes: as c11_stream_k5
+//@ encodes: as c11_step_k6
+//@ sym: as c11_step_k6 with up to 8 raw tokens per call
+//@ oracle: as c11_step_k6
+//@ bounds: one call may skip at most 8 raw tokens; unwind 11
+//@ stubs: as c11_step_k6
+//@ assumes: as c11_step_k6
 //@ replay: lexer
 //@ timeout: 2400
 #[kani::proof]
-#[kani::unwind(10)]
+#[kani::unwind(11)]
 #[kani::stub(<Tok<'_> as logos::Logos<'_>>::lex, lex_stub)]
-fn c11_stream_k7() {
-    stream_check(7);
+fn c11_step_k8() {
+    step_check(8);
 }
 
-//@ id: c11_stream_reach
+//@ id: c11_step_reach
 //@ property: C11
 //@ tier: quick
 //@ expect: reach
-//@ encodes: vacuity twin of c11_stream_k5: the end of the harness must be reachable
-//@ sym: as c11_stream_k5 with k <= 3
+//@ encodes: vacuity twin of c11_step_k6: the end of the harness must be reachable
+//@ sym: as c11_step_k6 with up to 3 raw tokens
 //@ oracle: final assert(false) must be violated
 //@ bounds: <= 3 raw tokens; unwind 6
-//@ stubs: as c11_stream_k5
+//@ stubs: as c11_step_k6
 //@ replay: none
 #[kani::proof]
 #[kani::unwind(6)]
 #[kani::stub(<Tok<'_> as logos::Logos<'_>>::lex, lex_stub)]
-fn c11_stream_reach() {
-    stream_check(3);
+fn c11_step_reach() {
+    step_check(3);
     assert!(false, "vacuity witness");
 }
 
